@@ -23,7 +23,17 @@ def _m(seq, tag="x"):
 
 
 def _script(J, path):
+    """Runs whatever the journaler currently does on both back ends: an exception of the
+    (possibly changed) code under test is an observation to compare, not a harness failure."""
     log = []
+    try:
+        _script_body(J, path, log)
+    except Exception as e:
+        log.append(("exception", type(e).__name__))
+    return log
+
+
+def _script_body(J, path, log):
     j = J(path)
     a = j.create_or_load("T", "S")
     b = j.create_or_load("S", "T")
@@ -58,7 +68,6 @@ def _script(J, path):
     j = J(path)
     a = j.create_or_load("T", "S")
     log.append(("reopen2", a.next_num_in, a.next_num_out, j.get_all_msgs()))
-    return log
 
 
 SQL_SCRIPT = [
